@@ -191,7 +191,7 @@ def progUser (n : Nat) (prog : List Step) (outs : List Nat) : PoolUser (List Val
 
 def entries : List String :=
   ["pairfixedq", "millerloopfixedq", "pairingcheckfixedq", "pair", "kzgverify", "kzgbatchverify", "kzgopen", "kzgcommit",
-   "multiexp", "fft", "mimc", "poseidon2", "sis", "batchscalarmul", "batchjactoaff", "iop", "vector", "codec",
+   "kzgbatchopen", "multiexp", "fft", "mimc", "poseidon2", "sis", "batchscalarmul", "batchjactoaff", "iop", "vector", "codec",
    "edwards", "polypool", "mdhasher"]
 
 def curves : List String :=
@@ -206,6 +206,14 @@ def supported (e c : String) : Bool :=
      else if e == "poseidon2" then curves.contains c || smallFields.contains c
      else curves.contains c)
 
+/-- lazily initialised globals and the packages that have them (same table as `c18FreshSupported` in the harness) -/
+def freshSupported (g c : String) : Bool :=
+  if g == "mimc" || g == "lagrange" then curves.contains c || c == "grumpkin"
+  else if g == "poseidon2" then curves.contains c || smallFields.contains c || c == "grumpkin"
+  else if g == "edwards" then curves.contains c || c == "bandersnatch"
+  else if g == "bigintpool" then curves.contains c
+  else false
+
 def showRanges (l : List (Nat × Nat)) : String :=
   if l.isEmpty then "-" else " ".intercalate (l.map fun r => toHex r.1 ++ ":" ++ toHex r.2)
 
@@ -216,12 +224,18 @@ def hexIn (s : String) (lo hi : Nat) : Option Nat :=
 
 /-- `C18 <entry> <curve> <k> <goroutines> <gomaxprocs> <seed>` : the model of every entry point is a function of the
 values of its arguments, hence pure, repeatable and schedule independent: all three bits are 1.
+`C18 fresh <global> <package> <goroutines> <children> <seed>` : the first use of a lazily initialised global, made
+concurrently in fresh processes: the `Once` model runs the initialiser exactly once before any reader proceeds, so every
+caller obtains the value of the initialised state: the same three bits.
 `C18 ranges <n> <nbTasks>` : the ranges of `parallel.Execute`. -/
 def handle : List String → String
   | ["ranges", n, nb] =>
     match hexIn n 0 (2^30), hexIn nb 0 (2^30) with
     | some n, some nb => showRanges (executeRanges n nb)
     | _, _ => "err:args"
+  | ["fresh", gl, c, g, n, seed] =>
+    if freshSupported gl c && (hexIn g 1 64).isSome && (hexIn n 1 200).isSome && (hexIn seed 0 (2^64 - 1)).isSome
+    then "pure=1 same=1 conc=1" else "err:args"
   | [e, c, k, g, p, seed] =>
     if supported e c && (hexIn k 1 8).isSome && (hexIn g 0 64).isSome && (hexIn p 1 64).isSome &&
        (hexIn seed 0 (2^64 - 1)).isSome
